@@ -13,6 +13,9 @@ CHECKS = {
  "C03": ("GitAiCore with the destructive vocabulary (hard reset, path checkout, restore, stash, soft/mixed reset) explored exhaustively; C03_Notes / C03_Blame are evaluated by TLC on every observed state of the replayed behaviours", "DESIGN.md 5 C03"),
  "C04": ("GitAiCore with staging by file and by hunk and partial commits (index, paths): every partition within the bounds is explored; C02_Carried / C01_OnlyAdded / C03_Notes decide that carried lines are listed once, for the right session, in the commit that contains them", "DESIGN.md 5 C04"),
  "C05": ("C05_WellFormed is evaluated by TLC on every observed note after every step of behaviours mixing commit, partial commit, reset, stash and checkout, over six file-name families; the structural flags come from the harness's independent parser of the published note grammar", "DESIGN.md 5 C05"),
+ "C08": ("behaviours over every note-writing command of the model (commit, partial commit, amend, rebase, cherry-pick, squash, reset+recommit, stash/pop+commit) are replayed under prompt-storage default / local / notes with a marker sentence and a credential-shaped token in every transcript; after each step every blob reachable from the notes ref and its remote-tracking copies (whole ref history) is scanned; TLC evaluates C08_NoTranscript / C08_Masked on the observed flags", "DESIGN.md 5 C08"),
+ "C09": ("the harness records plain git blame --line-porcelain (originating commit, path and line there) next to git-ai blame --json; TLC evaluates C09_Overlay = overlay of the recorded git blame with the observed notes, and C09_Formats (porcelain / line-porcelain / incremental name git's commits; readable and JSON output agree under -L ranges); histories include renames (git mv), amend, rebase, cherry-pick, squash", "DESIGN.md 5 C09"),
+ "C19": ("for every commit of every replayed history the harness logs git-ai stats --json and git's numstat; TLC evaluates the identities of C19_Stats, computing added / deleted / accepted lines itself from the recorded trees and observed notes", "DESIGN.md 5 C19"),
  "C12": ("twin execution: every selected behaviour (commits, partial commits, rebase, cherry-pick, squash, amend) is run once in a clean configuration and once under a covering family of git configurations (diff prefixes, external diff, textconv, colour, rename detection, algorithm, quotePath, pager, blame/notes/grep settings, GIT_EXTERNAL_DIFF) and start directories (subdirectory, -C); TLC evaluates Twin_Obs / Twin_Equiv / Twin_Blame on the pair of observed note and blame projections", "DESIGN.md 5 C12"),
  "C13": ("twin execution: the same behaviours run through the git-ai wrapper and through managed git hooks with plain git; TLC evaluates Twin_Obs / Twin_Equiv / Twin_Blame on the two observed projections (commit, partial commit, amend, rebase, cherry-pick, squash, reset, stash, checkout)", "DESIGN.md 5 C13"),
  "C15": ("twin execution with hook H3: each rebase / cherry-pick behaviour runs with the note-remapping shortcut and with the shortcut forced to decline; TLC evaluates Twin_Obs (observable part), Twin_Exact (line sets, prompts) and Twin_Blame on the two observed notes", "DESIGN.md 5 C15"),
